@@ -8,14 +8,14 @@ import os, sys
 D = os.path.dirname(os.path.abspath(__file__))
 def cfg(name, **k):
     d=dict(NK=2, MaxOps=3, MaxLag=1, MaxResub=1, LiveLimit=3, Modes='{"rec"}', Kinds='{"fresh"}', Pages='{1, 2}', SSizes='{1, 2}',
-           Filts='{"none"}', Ops='{"pub", "rem", "exp", "sexp", "clear"}', Pres=None, N0s='{0}', MaxJumps=0, Contig='FALSE', DropStale='FALSE', view=True, coded=True, sim=False, noinv=False)
+           Filts='{"none"}', Ops='{"pub", "rem", "exp", "sexp", "clear"}', Pres=None, N0s='{0}', MaxJumps=0, EpochCheck='TRUE', Contig='FALSE', DropStale='FALSE', view=True, coded=True, sim=False, noinv=False)
     d.update(k)
     if d['Pres'] is None: d['Pres']='{%d}'%d['MaxOps']
     inv='C22Coded' if d['coded'] else 'C22'
     pr='C22RCoded' if d['coded'] else 'C22R'
     s='SPECIFICATION %s\nCONSTANTS\n' % ('SimSpec' if d['sim'] else 'Spec')
     if d['sim']: s+='  WP = 8\n  WD = 8\n  WU = 3\n'
-    for c in ['NK','MaxOps','MaxLag','MaxResub','LiveLimit','Modes','Kinds','Pages','SSizes','Filts','Ops','MaxJumps','Pres','N0s','Contig','DropStale']:
+    for c in ['NK','MaxOps','MaxLag','MaxResub','LiveLimit','Modes','Kinds','Pages','SSizes','Filts','Ops','MaxJumps','EpochCheck','Pres','N0s','Contig','DropStale']:
         s+='  %s = %s\n'%(c,d[c])
     if d['view']: s+='VIEW View\n'
     s+=('INVARIANTS TypeOK\nCHECK_DEADLOCK FALSE\n' if d['noinv'] else 'INVARIANTS TypeOK %s\nPROPERTIES %s C16M\nCHECK_DEADLOCK FALSE\n'%(inv,pr))
@@ -55,3 +55,6 @@ cfg('lag2_fixed.cfg', Modes='{"per"}', Kinds=ALLK, MaxOps=3, MaxLag=2, Filts='{"
 cfg('sim_lag2_fixed.cfg', Modes='{"rec", "per"}', Kinds='{"fresh"}', MaxOps=4, MaxLag=2, Filts='{"none"}', Ops='{"pub", "rem"}', Pres='{0, 1}', N0s='{0, 1, 2}', Contig='TRUE', coded=True, view=False, sim=True, noinv=True)
 # with both repairs: PUB/SUB lag of two deliveries, full property
 cfg('sim_lag2_fixed2.cfg', Modes='{"rec", "per"}', Kinds=ALLK, MaxOps=4, MaxLag=2, Filts='{"none", "client"}', Ops='{"pub", "rem", "exp", "sexp"}', Pres='{0, 1}', N0s='{0, 1, 2}', Contig='TRUE', DropStale='TRUE', coded=False, view=False, sim=True)
+
+# witness: without the epoch comparison for STATE->LIVE a Clear between the top probe and the live read goes unnoticed (expected to violate C22)
+cfg('witness_clear_probe.cfg', Modes='{"per"}', Kinds='{"fresh"}', MaxOps=2, Pages='{2}', SSizes='{2}', Filts='{"none"}', Ops='{"pub", "clear"}', EpochCheck='FALSE', Contig='TRUE', DropStale='TRUE', coded=False)
